@@ -73,7 +73,7 @@ def gen_op(rng, n, closed):
     if roll < 0.81:
         return {"name": "set_padding", "v": gen_padding(rng)}
     if roll < 0.87:
-        return {"name": "set_render_args", "v": rng.choice(["a0", "a1", "a1", "incompatible"])}
+        return {"name": "set_render_args", "v": rng.choice(["a0", "a1", "a2", "a3", "a2", "a3", "incompatible"])}
     if roll < 0.94:
         return {"name": "set_render_size", "v": [rng.randrange(1, 5), rng.randrange(1, 4)]}
     if roll < 0.96:
@@ -203,7 +203,7 @@ def run(rep: Report, n_traces: int, pair: bool = False):
             )
             continue
         groups.setdefault((tr["n"], tr["k"]), []).append(tr)
-    gen = tlc.OUT / "cfg"
+    gen = tlc.OUT / "cfg" / str(__import__("os").getpid())
     gen.mkdir(parents=True, exist_ok=True)
     for (n, k), traces in sorted(groups.items()):
         cfg = gen / f"Trace_RI_{n}_{k}.cfg"
@@ -251,7 +251,7 @@ def replay_scenario(rep: Report, sc: dict):
              "stale": it.finalized_data_used()}
         )
     fresh = {"n": tr["n"], "k": tr["k"], "init": init, "tell0": it.tell0, "events": events}
-    gen = tlc.OUT / "cfg"
+    gen = tlc.OUT / "cfg" / str(__import__("os").getpid())
     gen.mkdir(parents=True, exist_ok=True)
     cfg = gen / f"Trace_RI_{tr['n']}_{tr['k']}.cfg"
     cfg.write_text(CFG.format(n=tr["n"], k=tr["k"]))
